@@ -294,7 +294,109 @@ func epCloseBusy(a []string) string {
 	return "fail:queue not closed"
 }
 
+// ep.removebusy <one-shot 0|1> <what: remove|close|make>: a call for a handler whose queue has no room; the error
+// reply of the endpoint waits for a peer that does not read yet.  In that moment the handler is removed (or the
+// endpoint closed, or another handler registered); then the peer reads.  The close callback of the handler has run
+// exactly once, its queue is closed once, a handler registered meanwhile is closed at shutdown.
+func childEpRemoveBusy(a []string) string {
+	log.SetOutput(ioutil.Discard)
+	oneShot := a[0] == "1"
+	x, y := gonet.Pipe()
+	defer y.Close()
+	ep := qnet.NewEndPoint(qnet.ConnStream(x))
+	queue := make(chan *qnet.Message) // nobody reads: no room
+	var closer, closer2 int64
+	id := ep.MakeHandler(func(*qnet.Header) (bool, bool) { return true, !oneShot }, queue, func(error) { atomic.AddInt64(&closer, 1) })
+	m := qnet.NewMessage(qnet.NewHeader(qnet.Call, 1, 1, 100, 7), nil)
+	wrote := make(chan error, 1)
+	go func() { wrote <- m.Write(y) }()
+	select {
+	case <-wrote:
+	case <-time.After(2 * time.Second):
+		return "fail:the endpoint does not read"
+	}
+	time.Sleep(20 * time.Millisecond) // the endpoint is now writing its error reply; the peer does not read
+	acted := make(chan string, 1)
+	queue2 := make(chan *qnet.Message, 4)
+	go func() {
+		switch a[1] {
+		case "remove":
+			if err := ep.RemoveHandler(id); err != nil {
+				acted <- "err"
+			} else {
+				acted <- "ok"
+			}
+		case "close":
+			ep.Close()
+			acted <- "closed"
+		default:
+			ep.MakeHandler(func(*qnet.Header) (bool, bool) { return false, true }, queue2, func(error) { atomic.AddInt64(&closer2, 1) })
+			acted <- "made"
+		}
+	}()
+	time.Sleep(20 * time.Millisecond)
+	go func() { // now the peer reads
+		buf := make([]byte, 4096)
+		for {
+			if _, err := y.Read(buf); err != nil {
+				return
+			}
+		}
+	}()
+	var act string
+	select {
+	case act = <-acted:
+	case <-time.After(3 * time.Second):
+		return "fail:" + a[1] + " does not return"
+	}
+	time.Sleep(10 * time.Millisecond)
+	ep.Close()
+	deadline := time.Now().Add(2 * time.Second)
+	for atomic.LoadInt64(&closer) == 0 && time.Now().Before(deadline) {
+		time.Sleep(200 * time.Microsecond)
+	}
+	time.Sleep(5 * time.Millisecond)
+	if n := atomic.LoadInt64(&closer); n != 1 {
+		return fmt.Sprintf("fail:close callback ran %d times", n)
+	}
+	select {
+	case _, ok := <-queue:
+		if ok {
+			return "fail:message after the close"
+		}
+	case <-time.After(time.Second):
+		return "fail:queue not closed"
+	}
+	if act == "made" {
+		deadline = time.Now().Add(2 * time.Second)
+		for atomic.LoadInt64(&closer2) == 0 && time.Now().Before(deadline) {
+			time.Sleep(200 * time.Microsecond)
+		}
+		if n := atomic.LoadInt64(&closer2); n != 1 {
+			return fmt.Sprintf("fail:the handler registered meanwhile was closed %d times", n)
+		}
+	}
+	if a[1] == "remove" {
+		// a one-shot handler was closed by the dispatch itself: its removal finds nothing; a permanent one is removed
+		if want := map[bool]string{true: "err", false: "ok"}[oneShot]; act != want {
+			return "fail:RemoveHandler answered " + act
+		}
+	}
+	return "ok"
+}
+
 func init() {
+	children["ep.removebusy"] = childEpRemoveBusy
+	executors["ep.removebusy"] = func(a []string) string {
+		out := runChild("ep.removebusy", strings.Join(a, " "), 30*time.Second, 0)
+		if out.Result != "ok" {
+			lastFailDetail = out.Stderr
+		}
+		if out.Result == "crash" || out.Result == "crash-noresult" {
+			return "crash"
+		}
+		return out.Result
+	}
 	for _, op := range []string{"reset", "make", "remove", "msg", "sync", "drain", "close", "peerclose", "final"} {
 		executors["ep."+op] = execEp(op)
 	}
@@ -466,6 +568,14 @@ func runC17(r *Rand, tier string, o *Out) {
 			o.Fail("Close while a reply waits for the peer: "+strings.TrimPrefix(res, "fail:"), op+" => "+res)
 		}
 		o.Count("op:close-while-a-reply-waits")
+	}
+	// removal, shutdown or a registration in the middle of a dispatch whose error reply waits for the peer
+	for _, c := range [][2]string{{"1", "remove"}, {"0", "remove"}, {"1", "close"}, {"0", "close"}, {"1", "make"}, {"0", "make"}} {
+		op := "ep.removebusy " + c[0] + " " + c[1]
+		if res := o.Do("P", op, true); res != "ok" {
+			o.Fail("handler table changed while a reply waits for the peer: "+strings.TrimPrefix(res, "fail:"), op+" => "+res+" "+tail(lastFailDetail, 400))
+		}
+		o.Count("op:" + c[1] + "-while-a-reply-waits")
 	}
 	_ = sort.Ints
 }
